@@ -293,14 +293,8 @@ package raft
 //@   ensures result1 != nil ==> isexternal(result1)
 
 // STUBS: structured payloads of task responses (their byte-level contracts are not written yet)
-//@ func (*Node).decode
-//@   trusted
-//@   modifies rpos, all(n)
-//@   ensures ConsumedSome(r) && (result0 != nil ==> isexternal(result0))
-//@ func (*Info).decode
-//@   trusted
-//@   modifies rpos, all(info)
-//@   ensures ConsumedSome(r) && (result0 != nil ==> isexternal(result0))
+// (STUB func (*Node).decode removed: verified contract in verif_contracts_codecs2.go; view at decodeTaskResp there)
+// (STUB func (*Info).decode removed: verified contract in verif_contracts_codecs2.go; view at decodeTaskResp there)
 //@ view (*entry).decode at decodeTaskResp
 //@   modifies rpos, all(e)
 //@   ensures ConsumedSome(r) && (result0 != nil ==> isexternal(result0))
